@@ -21,6 +21,7 @@ class Job:
         self.lang = lang          # 'cy' (pyx function) | 'c' (function in src_numerics.c) | 'py'
         self.expect = expect      # None, or 'refuted' for must-fail canaries
         self.tag = tag or contract.name
+        self.only_kinds = None    # restrict the job to these obligation kinds (other kinds belong to other properties)
 
 
 def load_module(module, lang):
@@ -64,7 +65,7 @@ def run_job(job, timeout_ms=10000, second_opinion=False):
     import z3
     t0 = time.time()
     out = {"tag": job.tag, "func": job.func, "module": job.module, "results": [], "error": None,
-           "expect": job.expect, "inapplicable": None}
+           "expect": job.expect, "inapplicable": None, "only_kinds": sorted(getattr(job, "only_kinds", None) or [])}
     try:
         if job.lang == "py":
             from .front_py import parse_region
@@ -96,9 +97,12 @@ def run_job(job, timeout_ms=10000, second_opinion=False):
         if miss_a:
             out["inapplicable"] = f"{job.func}: statements the contract asserts on no longer exist: {miss_a}"
             return out
+        out["loop_keys"] = list(ex.labels.get(("loopseq",), []))
         out["missing_loops"] = [k for k in job.contract.loops if ("loopcnt", k) not in ex.labels
                                 and not any(isinstance(x, tuple) and x[0] == "loopcnt" and
                                             (x[1] == k or (x[1] + "#" in k)) for x in ex.labels)]
+        if getattr(job, "only_kinds", None):
+            obls = [o for o in obls if o.kind in job.only_kinds]
         if job.expect == "refuted":
             want = "post" if job.tag.endswith("#vacuity-canary") else "bounds"
             obls = [o for o in obls if o.kind == want]
